@@ -10,7 +10,7 @@ import random
 import numpy as np
 import tskit
 
-ALLELES = ["A", "C", "G", "T", "", "ACG", "é", "AA"]
+ALLELES = ["A", "C", "G", "T", "", "ACG", "é", "AA", "AC", "AG", "AT", "CA", "CC", "CG", "CT"]   # tokens 8.. only used where asked for
 
 
 class CMap:
